@@ -565,6 +565,51 @@ def initEpochMillis (ms : Nat) : DateTime :=
 /-- `aws_date_time_init_epoch_secs` for the double `secs + ms/1000` (`ms < 1000`, `secs ≥ 0` when `ms > 0`) -/
 def initEpochSecs (secs : Int) (ms : Nat) : DateTime := mkDateTime secs ms false []
 
+/-! ### `aws_date_time_init_epoch_secs` on an actual `double`
+
+`dt->milliseconds = (uint16_t)round(modf(sec_ms, &integral) * 1000); dt->timestamp = (time_t)integral;`
+modelled over the rationals: a finite non-negative double is `sig · 2^(ex − 1075)`; `modf` is exact; the
+product with 1000.0 is rounded to 53 significant bits, ties to even (`rne`); C's `round` is exact, halves away
+from zero.  A fraction in [0.9995, 1) therefore gives `milliseconds = 1000` with the *same* `timestamp` — the
+object then stands for `timestamp + 1.000 s` in every epoch view.  (Assumption: IEEE-754 binary64 arithmetic,
+round-to-nearest mode, no excess precision — x86-64/SSE2; the run compares bit patterns against the C code and
+against Python's floats.)  Negative, non-finite and ≥ 2^63 doubles are not modelled (`none`). -/
+
+/-- `n / d` rounded to the nearest integer, ties to even -/
+def rne (n d : Nat) : Nat :=
+  let q := n / d
+  let r := n % d
+  if 2 * r < d then q else if 2 * r > d then q + 1 else if q % 2 = 0 then q else q + 1
+
+/-- `(uint16_t)round(fl(n / den))` for `n / den` = fraction · 1000 (so `n < 1000 · den`): the product lies in
+`[2^(52−s), 2^(53−s))` for the `s` found, one unit in the last place is `2^(−s)`; below 1/4 it rounds to 0 -/
+def productShift (n den : Nat) : Option Nat :=
+  ((List.range 12).map (· + 43)).find? (fun s => 2 ^ 52 * den ≤ 2 ^ s * n)   -- literal factors first: see Proofs.C19 note
+
+def roundedMillis (n den : Nat) : Nat :=
+  match productShift n den with
+  | none => 0
+  | some s =>
+    let m := rne (n * 2 ^ s) den               -- fl(fraction · 1000) = m · 2^(−s)
+    (2 * m + 2 ^ s) / 2 ^ (s + 1) % 65536      -- C `round`: exact, halves away from zero; then the cast
+
+/-- `(integral part, milliseconds as stored)` for the double with bit pattern `bits` -/
+def splitDouble (bits : Nat) : Option (Nat × Nat) :=
+  let E := bits / 2 ^ 52 % 2048
+  let M := bits % 2 ^ 52
+  if bits ≥ 2 ^ 63 ∨ E = 2047 ∨ E > 1085 then none else
+  let sig := if E = 0 then M else 2 ^ 52 + M
+  let ex := if E = 0 then 1 else E            -- value = sig · 2^(ex − 1075)
+  let num := sig * 2 ^ (ex - 1075)
+  let den := 2 ^ (1075 - ex)
+  let integral := num / den
+  let n := 1000 * (num % den)                  -- fraction · 1000 = n / den, exactly
+  some (integral, roundedMillis n den)
+
+/-- `aws_date_time_init_epoch_secs(dt, d)` for the double with these bits -/
+def initEpochSecsDouble (bits : Nat) : Option DateTime :=
+  (splitDouble bits).map (fun (s, ms) => mkDateTime s ms false [])
+
 def asMillis (dt : DateTime) : Nat :=
   ((convert (toU64 dt.timestamp) Gen.Date.asMillisSecs).1 + dt.millis) % u64
 
